@@ -2,6 +2,7 @@ package main
 
 import (
 	"fmt"
+	"go/types"
 	"sort"
 	"strings"
 
@@ -223,6 +224,31 @@ func checkC13(P *Prog, r *Result) {
 						}
 						if role := P.roleOf(a); role != "" {
 							out[ci.static.Params[i].Name()] = role
+						}
+						// the node's rules grouped into one options struct built for the call: each of its fields
+						// counts as the parameter it replaces
+						var holder *ssa.Alloc
+						switch y := a.(type) {
+						case *ssa.Alloc:
+							holder = y
+						case *ssa.UnOp:
+							holder, _ = y.X.(*ssa.Alloc)
+						}
+						if holder != nil && holder.Referrers() != nil {
+							if _, isStruct := holder.Type().(*types.Pointer).Elem().Underlying().(*types.Struct); isStruct {
+								for _, rf := range *holder.Referrers() {
+									fa, ok := rf.(*ssa.FieldAddr)
+									if !ok {
+										continue
+									}
+									_, ff := fieldVar(fa)
+									for _, st := range storesTo(fa) {
+										if role := P.roleOf(st.Val); role != "" && ff != nil {
+											out[ff.Name()] = role
+										}
+									}
+								}
+							}
 						}
 					}
 				})
